@@ -25,6 +25,7 @@ import types
 from concurrent.futures import ThreadPoolExecutor
 
 from vt.common import BUILD, RES_RE, Ctx, cz, cnat, cnatlist, cboollist, clist, coqc_file
+from vt import decode_guard as dg
 
 HEADER = ("From Coq Require Import List ZArith NArith Bool.\n"
           "From RL4CO Require Import Decoding.Batchify Decoding.Nest Decoding.Starts Harness.HC12.\n"
@@ -43,6 +44,7 @@ SIG_NUM_LOC = "select_start_nodes/generic: modulus-is-generator-num_loc-not-inst
 SIG_SAMPLE_INFEASIBLE = "sample_n_random_actions: infeasible action sampled"
 SIG_SAMPLE_DUP = "sample_n_random_actions: duplicates-although-k-feasible-starts-exist"
 SIG_SAMPLE_DUP_BATCH = "sample_n_random_actions: batch-global-replacement-duplicates-although-k-feasible-starts-exist"
+SIG_SAMPLE_DUP_COL0 = "sample_n_random_actions: replacement-test-skips-column-0-duplicates-although-k-feasible-starts-exist"
 
 
 def sig_mask(env_name):
@@ -277,6 +279,16 @@ def expected_unbatchify_index(np, B, fs):
 # ----------------------------------------------------------------------------------------- the check
 
 def run(ctx: Ctx, proofs_ok: bool):
+    try:
+        _run(ctx, proofs_ok)
+    except dg.DecodeTimeout as exc:      # a guarded call into rl4co did not return (the inner handlers re-raise it)
+        ctx.failure(dg.signature(exc.fn_name), {"kind_": "no-return", "unit": exc.fn_name, "what": str(exc),
+                                                "input": getattr(exc, "replay", None)}, tag="no_return")
+    finally:
+        ctx.extra["decode_guard"] = dg.evidence()
+
+
+def _run(ctx: Ctx, proofs_ok: bool):
     import logging
     import numpy as np
     import torch
@@ -294,7 +306,9 @@ def run(ctx: Ctx, proofs_ok: bool):
                 "{2,4,6}, 4-tuples over 1..3; up to 2744 rows) plus shapes containing 0 / negative factors, on tagged "
                 "int tensors [L,2] and TensorDicts (3 keys, one nested); select_start_nodes on real env instances (tsp atsp cvrp "
                 "sdvrp cvrptw pdp op pctsp spctsp mtsp svrp mtvrp(presets) flp mcp), B<=4, k=1..default+2, OP with hand-set "
-                "max_length so that 0..n nodes are reachable, generator/instance size mismatches; hooks, _select_best with ties, "
+                "max_length so that 0..n nodes are reachable, generator/instance size mismatches; sample_n_random_actions on B<=4 x N in {3,4,6}: "
+                "all-true / random masks, the function's own boundary (n valid columns 1..) and the candidates' boundary per instance "
+                "(n == candidates, n == candidates + 1, column 0 admissible / masked) with a 40-draw repeat statistic; hooks, _select_best with ties, "
                 "real StateAugmentation+multistart pipeline, real AttentionModel decoder/policy, POMO/SymNCO shared_step, eval.py. "
                 "non-trivial = more than one instance or more than one replica; distinct by hash of the inputs")
     ctx.assumptions += [
@@ -508,7 +522,7 @@ def run(ctx: Ctx, proofs_ok: bool):
                 tdx = TensorDict({"tag": torch.arange(L) + 2000, "m": torch.zeros(L, 3), "i": TensorDict({"j": torch.arange(L).view(L, 1)}, batch_size=[L])}, batch_size=[L])
                 meta = {"fn": "_select_best", "B": B, "k": k, "rewards": rew}
                 try:
-                    l, a, t, _ = st._select_best(lp, acts, tdx, StubEnv(torch.tensor(rew, dtype=torch.float32)))
+                    l, a, t, _ = dg.call("DecodingStrategy._select_best", st._select_best, lp, acts, tdx, StubEnv(torch.tensor(rew, dtype=torch.float32)))
                     oa, ol, ot = a[:, 0].tolist(), [int(v) for v in l[:, 0].tolist()], t["tag"].tolist()
                     obs = "Some (%s, %s, %s)" % (cnatlist(oa), cnatlist(ol), cnatlist(ot))
                     # the property on the implementation's output
@@ -523,6 +537,8 @@ def run(ctx: Ctx, proofs_ok: bool):
                     if not ok:
                         fail("_select_best: not the best of the instance's own rollouts with that rollout's actions/logp/state",
                              dict(meta, kind_="select_best", observed={"actions": oa, "logp": ol, "td": ot}))
+                except dg.DecodeTimeout:
+                    raise
                 except Exception as e:      # noqa: BLE001
                     obs = "None"
                     meta["raised"] = repr(e)[:200]
@@ -560,8 +576,12 @@ def run(ctx: Ctx, proofs_ok: bool):
         gen = getattr(env.generator, "num_loc", None)
         state = torch.get_rng_state()
         try:
-            sel = (env.select_start_nodes(td, k) if via_env else ops.select_start_nodes(td, env, k))
+            sel = (dg.call("env.select_start_nodes", env.select_start_nodes, td, k) if via_env
+                   else dg.call("ops.select_start_nodes", ops.select_start_nodes, td, env, k))
             sel = [int(v) for v in sel.tolist()]
+        except dg.DecodeTimeout as exc:
+            exc.replay = {"env": label, "k": k, "masks": masks}
+            raise
         except Exception as e:      # noqa: BLE001
             sel = None
         needs_resample = name == "op" and any(sum(m[1:]) < k for m in masks)
@@ -716,37 +736,45 @@ def run(ctx: Ctx, proofs_ok: bool):
     ctx.sample({"unit": "select_start_nodes", "case": {k_: v for k_, v in st_meta[3].items() if k_ != "masks"}})
 
     # ---- sample_n_random_actions (FJSPEnv.select_start_nodes; eval.py SamplingEval's select_start_nodes_fn)
-    # "valid actions" are the function's own candidates: columns 1.. of the mask (column 0 = depot / no-op).  The stream
-    # holds, for every n, batches in which EVERY instance has exactly n valid actions (the boundary of the function's
-    # replacement test), batches with one instance at the boundary, all-true masks and random masks.
+    # The function DRAWS among all admissible columns of the mask (column 0 included: `ps[~action_mask] = -inf; softmax`) but
+    # DECIDES about replacement from columns 1.. only (`action_mask[:, 1:]`).  The property speaks about the feasible starts of
+    # the instance = the admissible columns of ITS mask (the candidates of the draw).  The stream holds, for every n, the
+    # boundaries of both counts: every instance / one instance with exactly n admissible columns among 1.. (the function's own
+    # test), and -- per instance, also in single-row batches -- n == number of candidates and n == number of candidates + 1,
+    # with column 0 admissible and not; all-true masks and random masks.
     sm_cases, sm_meta = [], []
     sm_stats = {"instances_with_premise": 0, "instances_without_premise": 0, "duplicates_with_premise": 0,
-                "duplicates_with_premise_all_rows_have_k": 0, "infeasible": 0}
+                "duplicates_with_premise_all_rows_have_k": 0, "duplicates_with_premise_column_0_not_counted": 0, "infeasible": 0}
+    repl_stat = {}          # boundary kind -> [draws, draws with a repeated start in a row that has exactly n candidates]
 
     def sample_spec(masks, n, sel, state_hex, where):
         """the property on the implementation's output: every start of instance b is allowed by ITS mask; the n starts
         of an instance with >= n valid actions are pairwise distinct"""
         B = len(masks)
-        nvalid = [sum(1 for v in m[1:] if v) for m in masks]
+        nvalid = [sum(1 for v in m[1:] if v) for m in masks]          # what the function's replacement test counts
+        ncand = [sum(1 for v in m if v) for m in masks]               # the candidates of the draw = the instance's feasible starts
         found = False
         for b in range(B):
             own = [sel[j * B + b] for j in range(n)]
             feas = [0 <= a < len(masks[b]) and masks[b][a] for a in own]
             replay = {"kind_": "sample_n", "B": B, "k": n, "n": n, "masks": masks, "selected": sel, "instance_row": b,
                       "starts_of_instance": own, "feasible_under_mask": feas, "valid_actions_per_instance": nvalid,
-                      "rng_state_hex": state_hex, "found_by": where}
+                      "candidates_per_instance": ncand, "rng_state_hex": state_hex, "found_by": where}
             if not all(feas):
                 sm_stats["infeasible"] += 1
                 fail(SIG_SAMPLE_INFEASIBLE, replay, "sample_n")
                 found = True
-            if nvalid[b] < n:
+            if ncand[b] < n:
                 sm_stats["instances_without_premise"] += 1
-                continue                      # fewer than n valid actions: the property claims nothing
+                continue                      # fewer than n feasible starts: the property claims nothing
             sm_stats["instances_with_premise"] += 1
             if len(set(own)) < n:
                 sm_stats["duplicates_with_premise"] += 1
                 found = True
-                if min(nvalid) >= n:          # every instance of the batch has n valid actions
+                if nvalid[b] < n:             # n feasible starts, column 0 among them: the instance's OWN row switches replacement on
+                    sm_stats["duplicates_with_premise_column_0_not_counted"] += 1
+                    fail(SIG_SAMPLE_DUP_COL0, replay, "sample_n_col0")
+                elif min(nvalid) >= n:        # every instance of the batch has n valid actions
                     sm_stats["duplicates_with_premise_all_rows_have_k"] += 1
                     fail(SIG_SAMPLE_DUP, replay, "sample_n")
                 else:                         # a batch-mate with fewer valid actions switched replacement on for all rows
@@ -756,8 +784,11 @@ def run(ctx: Ctx, proofs_ok: bool):
     def call_sample(masks, n):
         state = torch.get_rng_state()
         try:
-            sel = [int(v) for v in ops.sample_n_random_actions(
-                TensorDict({"action_mask": torch.tensor(masks)}, batch_size=[len(masks)]), n).tolist()]
+            sel = [int(v) for v in dg.call("ops.sample_n_random_actions", ops.sample_n_random_actions,
+                                           TensorDict({"action_mask": torch.tensor(masks)}, batch_size=[len(masks)]), n).tolist()]
+        except dg.DecodeTimeout as exc:
+            exc.replay = {"masks": masks, "n": n}
+            raise
         except Exception:      # noqa: BLE001
             sel = None
         if sel is not None and len(sel) != n * len(masks):
@@ -782,6 +813,23 @@ def run(ctx: Ctx, proofs_ok: bool):
         on = set(rng.sample(range(1, N), nv))
         return [col0] + [c in on for c in range(1, N)]
 
+    def replacement_statistic(masks, n, what, R=40):
+        """The replacement decision is not visible in ONE draw without a repeat.  In a row with exactly n candidates a draw WITH
+        replacement repeats a start with probability >= 1 - n!/n^n >= 1/2 (for every weight vector), a draw WITHOUT never does:
+        R further draws on the same input, counted per kind; the model's rule (sample_replace) predicts which of the two it is."""
+        B = len(masks)
+        rows = [b for b in range(B) if sum(masks[b]) == n]
+        if not rows or n < 2:
+            return
+        d = repl_stat.setdefault(what, [0, 0, None])
+        for _ in range(R):
+            sel, _h = call_sample(masks, n)
+            if sel is None:
+                return
+            d[0] += 1
+            d[1] += int(any(len(set(sel[j * B + b] for j in range(n))) < n for b in rows))
+        d[2] = {"masks": masks, "n": n}
+
     for B in (1, 2, 3, 4):
         for N in (3, 4, 6):
             for rep in range(3 if not thorough else 8):
@@ -799,6 +847,21 @@ def run(ctx: Ctx, proofs_ok: bool):
                                                                         for _ in range(B - 1)]
                         rng.shuffle(rows)
                         record_sample(rows, n, "boundary_one_row_nvalid_eq_n")
+            # the boundary of the CANDIDATES (all admissible columns), per instance: n == candidates and n == candidates + 1, with
+            # column 0 admissible (then the function's count is one short: it draws with replacement although n candidates exist)
+            # and with column 0 masked (the two counts coincide)
+            for n in range(2, min(N, 4) + 1):
+                for col0 in (True, False):
+                    for extra_n, tag in ((0, "n_eq_candidates"), (1, "n_eq_candidates_plus_1")):
+                        c = n - extra_n                                   # number of candidates of every instance
+                        nv = c - (1 if col0 else 0)                       # of them among columns 1..
+                        if nv < 0 or nv > N - 1 or c < 1:
+                            continue
+                        what = "boundary_%s_col0_%s" % (tag, "admissible" if col0 else "masked")
+                        mk = [mask_with(N, nv, col0) for _ in range(B)]
+                        record_sample(mk, n, what)
+                        if B <= 2 and extra_n == 0:
+                            replacement_statistic(mk, n, what)
     sm_codes = eval_unit(ctx, "sample_n_random_actions", "sample_case", "check_sample", sm_cases, sm_meta)
     # search: a disagreement of a RANDOM unit is re-sampled on the disagreeing input and on its neighbours (n-1, n+1,
     # the instance alone) and judged by the property itself
@@ -815,6 +878,20 @@ def run(ctx: Ctx, proofs_ok: bool):
                     break
     ctx.count("sample_n_search_draws", tries)
     ctx.extra["sample_n_on_impl"] = sm_stats
+    # the replacement rule itself: model (Starts.sample_replace: columns 1.. of SOME row hold fewer than n admissible actions)
+    # against the repeat statistic of the implementation on rows with exactly n candidates
+    ctx.extra["sample_n_replacement_statistic"] = {k_: {"draws": v[0], "draws_with_a_repeat": v[1]} for k_, v in sorted(repl_stat.items())}
+    for what, (draws, reps, example) in sorted(repl_stat.items()):
+        if not draws or example is None:
+            continue
+        model_replace = any(sum(1 for v in m[1:] if v) < example["n"] for m in example["masks"])
+        if model_replace and reps == 0:
+            ctx.broken.append("correspondence C12/sample_n_random_actions: the model (replacement decided from columns 1.. of the mask) says the "
+                              "draws of kind %s are WITH replacement, the implementation never repeated a start in %d draws on rows with exactly "
+                              "n candidates (probability < 2^-%d under the model); e.g. %s" % (what, draws, draws, example))
+        if not model_replace and reps > 0:
+            ctx.broken.append("correspondence C12/sample_n_random_actions: the model says the draws of kind %s are WITHOUT replacement, the "
+                              "implementation repeated a start in %d of %d draws; e.g. %s" % (what, reps, draws, example))
 
     mark("start_nodes")
     # ================================================================================== 5. DecodingStrategy.__init__ + pre_decoder_hook
@@ -831,7 +908,7 @@ def run(ctx: Ctx, proofs_ok: bool):
             sel = []
             try:
                 stg = Greedy(multistart=ms, multisample=mp, num_starts=ns, num_samples=nsamp)
-                td2, _, n_out = stg.pre_decoder_hook(td0.clone(), env)
+                td2, _, n_out = dg.call("DecodingStrategy.pre_decoder_hook", stg.pre_decoder_hook, td0.clone(), env)
                 L = td2.batch_size[0]
                 inst = []
                 for r in range(L):
@@ -868,7 +945,7 @@ def run(ctx: Ctx, proofs_ok: bool):
                 ref = [dihedral_8_augmentation(td0["locs"][b:b + 1]) for b in range(B)]      # ref[b][p] = transform p of instance b
                 tda = aug(td0.clone())
                 stg = get_decoding_strategy("multistart_greedy", num_starts=s)
-                td2, _, n_out = stg.pre_decoder_hook(tda, tsp)
+                td2, _, n_out = dg.call("DecodingStrategy.pre_decoder_hook", stg.pre_decoder_hook, tda, tsp)
                 L = td2.batch_size[0]
                 obs, ok = [], True
                 for r in range(L):
@@ -918,6 +995,8 @@ def run(ctx: Ctx, proofs_ok: bool):
 
     try:
         policy_level(ctx, built, fail, torch, ops, get_decoding_strategy, thorough)
+    except dg.DecodeTimeout:
+        raise
     except Exception as e:      # noqa: BLE001
         import traceback
         ctx.broken.append("C12 policy-level spec-on-impl crashed: %s" % traceback.format_exc()[-800:])
@@ -961,6 +1040,10 @@ WHAT = {
     SIG_SAMPLE_DUP_BATCH: "sample_n_random_actions decides 'with replacement' from the MINIMUM number of valid actions over the batch: an "
                           "instance with >= n valid actions gets duplicate starts because a batch-mate has fewer",
     SIG_SAMPLE_INFEASIBLE: "sample_n_random_actions returned an action that the instance's own mask forbids",
+    SIG_SAMPLE_DUP_COL0: "sample_n_random_actions draws among ALL admissible columns of the mask (column 0 included) but decides about "
+                         "replacement from columns 1.. only: an instance with exactly n admissible actions, column 0 among them, is drawn WITH "
+                         "replacement and gets duplicate starts although n feasible starts exist -- also in a single-row batch (mask ones(1,3), "
+                         "n=3); reachable via SamplingEval on TSP-like reset states (Coq: C12_sample_n_col0_duplicates_refuted)",
     sig_mask("svrp"): "SVRP masks at reset the nodes the first technician cannot serve; the generic start rule forces nodes "
                       "1..k regardless (Coq: C12_generic_ignores_reset_mask_refuted)",
 }
@@ -992,7 +1075,7 @@ def policy_level(ctx, built, fail, torch, ops, get_decoding_strategy, thorough):
                 # --- the decoder: mask and logits after regrouping belong to the row's own state and instance
                 hidden, _ = pol.encoder(td0)
                 stg = get_decoding_strategy("multistart_greedy", num_starts=s)
-                td2, _, ns = stg.pre_decoder_hook(td0.clone(), env)
+                td2, _, ns = dg.call("DecodingStrategy.pre_decoder_hook", stg.pre_decoder_hook, td0.clone(), env)
                 td2, _, cached = pol.decoder.pre_decoder_hook(td2, env, hidden, ns)
                 logits, mask = pol.decoder(td2, cached, ns)
                 ref_logits, ref_mask = pol.decoder(td2, cached.batchify(num_starts=ns), 0)      # every row on its own
@@ -1004,7 +1087,7 @@ def policy_level(ctx, built, fail, torch, ops, get_decoding_strategy, thorough):
                 # --- the policy: every output row r is a rollout of instance r mod B
                 for dt, kw in (("multistart_greedy", dict(num_starts=s)), ("sampling", dict(num_samples=s, multisample=True)),
                                ("multistart_sampling", dict(num_starts=s))):
-                    out = pol(td0.clone(), env, phase="test", decode_type=dt, **kw)
+                    out = dg.call("ConstructivePolicy.forward", pol, td0.clone(), env, phase="test", decode_type=dt, **kw)
                     acts, rew = out["actions"], out["reward"]
                     if acts.shape[0] != s * B:
                         fail("policy: wrong number of output rows", dict(meta, kind_="policy", decode_type=dt))
@@ -1020,8 +1103,9 @@ def policy_level(ctx, built, fail, torch, ops, get_decoding_strategy, thorough):
                             fail("policy(%s): first action of row r is not the start selected for row r" % dt, dict(meta, kind_="policy"))
                     n_checked += s * B
                 # --- select_best inside the policy
-                out_all = pol(td0.clone(), env, phase="test", decode_type="multistart_greedy", num_starts=s)
-                out_best = pol(td0.clone(), env, phase="test", decode_type="multistart_greedy", num_starts=s, select_best=True)
+                out_all = dg.call("ConstructivePolicy.forward", pol, td0.clone(), env, phase="test", decode_type="multistart_greedy", num_starts=s)
+                out_best = dg.call("ConstructivePolicy.forward", pol, td0.clone(), env, phase="test", decode_type="multistart_greedy", num_starts=s,
+                                   select_best=True)
                 for b in range(B):
                     own = [float(out_all["reward"][j * B + b]) for j in range(s)]
                     j = own.index(max(own))
@@ -1031,7 +1115,7 @@ def policy_level(ctx, built, fail, torch, ops, get_decoding_strategy, thorough):
                 for ev in (GreedyMultiStartEval(env, num_starts=s, progress=False),
                            AugmentationEval(env, num_augment=8, force_dihedral_8=True, progress=False),
                            GreedyMultiStartAugmentEval(env, num_starts=s, num_augment=8, force_dihedral_8=True, progress=False)):
-                    a_, r_ = ev._inner(pol, td0.clone())
+                    a_, r_ = dg.call("eval.%s._inner" % type(ev).__name__, ev._inner, pol, td0.clone())
                     for b in range(B):
                         own = env.get_reward(td0[b: b + 1], a_[b: b + 1])
                         if not close(r_[b], own[0]):
@@ -1055,7 +1139,7 @@ def policy_level(ctx, built, fail, torch, ops, get_decoding_strategy, thorough):
             h = m.policy.register_forward_hook(lambda mod, inp, out: raw.update(actions=out["actions"].clone(), reward=out["reward"].clone()))
             batch = env.generator(batch_size=[B])
             with torch.no_grad():
-                m.shared_step(batch, 0, phase="test")
+                dg.call("POMO.shared_step", m.shared_step, batch, 0, phase="test")
             h.remove()
             out = cap["out"]
             td0 = env.reset(batch)
@@ -1086,7 +1170,7 @@ def policy_level(ctx, built, fail, torch, ops, get_decoding_strategy, thorough):
         h = sm.policy.register_forward_hook(lambda mod, inp, out: raw.update(reward=out["reward"].clone()))
         batch = env.generator(batch_size=[B])
         with torch.no_grad():
-            sm.shared_step(batch, 0, phase="test")
+            dg.call("SymNCO.shared_step", sm.shared_step, batch, 0, phase="test")
         h.remove()
         out = cap["out"]
         for b in range(B):
@@ -1153,7 +1237,10 @@ def rows_vs_single(torch, name, B, k, dt, seed, tol=1e-4):
     kw = dict(num_starts=k) if multistart else dict(num_samples=k, multisample=True)
     with torch.no_grad():
         try:
-            out = pol(td0.clone(), env, phase="test", decode_type=dt, return_actions=True, return_sum_log_likelihood=False, **kw)
+            out = dg.call("ConstructivePolicy.forward", pol, td0.clone(), env, phase="test", decode_type=dt, return_actions=True,
+                          return_sum_log_likelihood=False, **kw)
+        except dg.DecodeTimeout:
+            raise
         except Exception as e:      # noqa: BLE001   no outputs, nothing to attribute to an instance (a raise is loud)
             return "raises", repr(e)[:160]
         acts, ll, rew = out["actions"], out["log_likelihood"], out["reward"]
@@ -1166,7 +1253,8 @@ def rows_vs_single(torch, name, B, k, dt, seed, tol=1e-4):
         for b in range(B):
             rows = [j * B + b for j in range(k)]
             alone = td0[torch.tensor([b] * k)]
-            ref = pol(alone.clone(), env, phase="test", actions=acts[rows], return_actions=True, return_sum_log_likelihood=False)
+            ref = dg.call("ConstructivePolicy.forward", pol, alone.clone(), env, phase="test", actions=acts[rows], return_actions=True,
+                          return_sum_log_likelihood=False)
             rl, rr = ref["log_likelihood"], ref["reward"]
             Tr = min(rl.shape[1], T)
             for j, r in enumerate(rows):
@@ -1183,7 +1271,8 @@ def rows_vs_single(torch, name, B, k, dt, seed, tol=1e-4):
                                         observed_logp=[round(float(v), 6) for v in ll[r]], expected_logp=[round(float(v), 6) for v in rl[j]],
                                         observed_reward=float(rew[r]), expected_reward=float(rr[j]))
             if dt == "multistart_greedy":
-                one = pol(td0[b:b + 1].clone(), env, phase="test", decode_type=dt, return_actions=True, num_starts=k)["actions"]
+                one = dg.call("ConstructivePolicy.forward", pol, td0[b:b + 1].clone(), env, phase="test", decode_type=dt, return_actions=True,
+                              num_starts=k)["actions"]
                 T1 = min(one.shape[1], T)
                 mine = acts[rows]
                 if one.shape[0] == k and bool((one[:, 0] == mine[:, 0]).all()) and not (
@@ -1206,6 +1295,8 @@ def policy_rows(ctx, fail, torch, thorough):
                     meta = {"fn": "k-fold policy pass vs instance alone", "env": name, "B": B, "k": k, "decode_type": dt, "seed": seed}
                     try:
                         verdict, info = rows_vs_single(torch, name, B, k, dt, seed)
+                    except dg.DecodeTimeout:
+                        raise
                     except Exception as e:      # noqa: BLE001
                         import traceback
                         verdict, info = "error", traceback.format_exc()[-500:]
@@ -1264,12 +1355,14 @@ def replay(obj):
         B, n, b = masks.shape[0], obj["n"], obj["instance_row"]
         td = TensorDict({"action_mask": masks}, batch_size=[B])
         nvalid = [int(v) for v in masks[:, 1:].sum(1).tolist()]
+        ncand = [int(v) for v in masks.sum(1).tolist()]
 
         def judge(sel):
             own = [sel[j * B + b] for j in range(n)]
             feas = [bool(masks[b, a]) for a in own]
-            return own, feas, (not all(feas)) or (nvalid[b] >= n and len(set(own)) < n)
-        print("masks: %s   valid actions (columns 1..) per instance: %s   n = %d   instance %d" % (obj["masks"], nvalid, n, b))
+            return own, feas, (not all(feas)) or (ncand[b] >= n and len(set(own)) < n)
+        print("masks: %s   feasible starts (admissible columns) per instance: %s   of them among columns 1..: %s   n = %d   instance %d" % (
+            obj["masks"], ncand, nvalid, n, b))
         print("recorded starts of the instance: %s feasible: %s" % (obj["starts_of_instance"], obj["feasible_under_mask"]))
         if obj.get("rng_state_hex"):
             torch.set_rng_state(torch.frombuffer(bytearray(bytes.fromhex(obj["rng_state_hex"])), dtype=torch.uint8))
